@@ -73,6 +73,7 @@ func (e *env) directedGroups() [][]*call {
 		{(&call{Setter: "SetClusterVersion", ver: "5.0.0"}).finish(), pd(func(c *config.PDServerConfig) { c.FlowRoundByDigit = 5 })},
 		{rm(func(c *config.ReplicationModeConfig) { c.DRAutoSync.LabelKey = "zone" }),
 			(&call{Setter: "SetLabelPropertyConfig", lp: config.LabelPropertyConfig{"x": {{Key: "zone", Value: "z1"}}}}).finish()},
+		{(&call{Setter: "SetLabelPropertyConfig", lp: config.LabelPropertyConfig{"y": {{Key: "dc", Value: "d1"}}}, Muts: []string{"label-property=whole"}}).finish(), labelCall(true, "x", "dc", "d2")},
 		{snap, e.schedCall("space-ratios=out:equal", func(c *config.ScheduleConfig) { c.LowSpaceRatio, c.HighSpaceRatio = 0.7, 0.7 })},
 		{repl(func(c *config.ReplicationConfig) { c.IsolationLevel = "not-a-label" }), (&call{Setter: "SetClusterVersion", ver: "5.1.0"}).finish()},
 	}
@@ -117,7 +118,11 @@ func (e *env) concurrentDirect(g *gen, randomPairs int) {
 		}
 		e.grid("overlap-direct", ops, pairOrders, restore, gi == 1)
 		r.Count("overlap_groups_directed", 1)
-		if gi < 4 {
+		if gi < 3 {
+			// one update in flight across the reload and nothing else
+			e.inflightGrid("inflight-across-reload-direct-single", e.copOf(calls[0]), reloadCop(reload), noCop(), restore)
+		}
+		if gi < 4 || gi == 6 {
 			// the same two updates with the serving options reloaded while the first one is parked
 			for _, ord := range pairOrders {
 				e.inflightGrid("inflight-across-reload-direct", e.copOf(calls[ord[0]]), reloadCop(reload), e.copOf(calls[ord[1]]), restore)
@@ -378,7 +383,7 @@ func (e *env) getEditSet() {
 // storeLimitCop: POST /store/1/limit - the raft cluster's own set+Persist+rollback path.
 func (ru *running) storeLimitCop(field string, rate int) *cop {
 	p := &post{Path: "/store/1/limit", Body: map[string]interface{}{"type": field, "rate": rate}, Class: field, site: "POST /store/{id}/limit"}
-	return &cop{Name: "POST /store/1/limit", Desc: p, sec: "schedule", st: ru.httpStep(p),
+	return &cop{Name: "POST /store/1/limit", Desc: p, sec: "schedule", kind: "store-limit-rmw", st: ru.httpStep(p),
 		apply: func(v interface{}) interface{} {
 			out := map[string]interface{}{}
 			if m, ok := v.(map[string]interface{}); ok {
@@ -470,6 +475,7 @@ func (ru *running) concurrentRunning(thorough bool) {
 		raceFaults = raceFaults[:3]
 		groups = groups[1:] // the same-section group meets both root causes
 	}
+	ru.inflightGrid("inflight-across-leader-change-single", ru.copOf(partners[0]), reloadCop(relead), noCop(), restore)
 	for _, g := range groups {
 		ru.inflightGrid("inflight-across-leader-change", ru.copOf(g[0]), reloadCop(relead), ru.copOf(g[1]), restore)
 		r.Count("reload_groups_running", 1)
